@@ -61,6 +61,17 @@ impl Prop for AddSub {
                     let total: u128 = *u.choose(&[1u128 << 32, 1u128 << 63, 1u128 << 64, (1u128 << 64) + (1u128 << 63), 1u128 << 65])?;
                     let total = (total as i128 + u.range_i64(-2, 2)? as i128 + if u.coin(1, 2)? { u.range_i64(0, 999_999_999)? as i128 } else { 0 }).max(0) as u128;
                     ((total / 1_000_000_000) as u64, (total % 1_000_000_000) as u32)
+                } else if u.coin(1, 6)? {
+                    // an exact multiple of a unit whose multiplier is next to 2^31 / 2^32 / a multiple
+                    // of 2^32 (a count that is narrowed to 32 bits wraps), with no sub-second part
+                    let unit = *u.choose(&[86_400u64, 86_400, 3_600, 60, 1])?;
+                    let mult = match u.below(4)? {
+                        0 => (1u64 << 32) + u.below(6)?,
+                        1 => (1u64 << 31) + u.below(6)?,
+                        2 => (1u64 << 32) * u.int_in_range(1..=3u64)? + u.below(40_000)?,
+                        _ => (1u64 << 32) - 1 - u.below(6)?,
+                    };
+                    (mult * unit, if u.coin(1, 4)? { 1 } else { 0 })
                 } else {
                     (dur_secs(u)?, u.int_in_range(0..=999_999_999u32)?)
                 };
@@ -116,6 +127,22 @@ impl Prop for AddSub {
                     Op::Unit { unit, count, .. } if *unit == 6 && to_midnight <= u32::MAX as i64 => *count = to_midnight as u32,
                     Op::Unit { unit, count, .. } if *unit == 3 && to_midnight % 1_000_000_000 == 0 => *count = (to_midnight / 1_000_000_000) as u32,
                     _ => {}
+                }
+            }
+        }
+        // whole days plus a fraction, applied to a receiver within that fraction of the end (start)
+        // of its day: the sub-day parts carry into one more day than the whole days
+        if u.coin(1, 16)? {
+            if let Op::DtDur { secs, nanos, sub, .. } = &mut op {
+                let k = *u.choose(&[1u64, 1, 2, 7])?;
+                *secs = k * 86_400 + if u.coin(1, 3)? { *u.choose(&[0u64, 1, 59, 3_599])? } else { 0 };
+                *nanos = u.int_in_range(1..=999_999_999u32)?;
+                let extra = (*secs % 86_400) as i64 * 1_000_000_000 + *nanos as i64;
+                let g = u.range_i64(0, extra)?;
+                a.ns = if *sub { g.min(86_399_999_999_999) } else { (86_400_000_000_000 - 1 - g).max(0) + if g == extra { 0 } else { 0 } };
+                if !*sub && u.coin(1, 2)? {
+                    // exactly on / one step beyond the carry
+                    a.ns = (86_400_000_000_000 - extra + u.range_i64(-1, 1)?).clamp(0, 86_399_999_999_999);
                 }
             }
         }
